@@ -88,18 +88,24 @@ def snapshot(b, root, dts):
     while t is not None:
         depth += 1
         t = t.parent
-    return {"files": files, "registry": regd, "collections": sorted(b.registry.queryCollections()), "txn_depth": depth}
+    inmem = 0
+    for child in getattr(b._datastore, "datastores", []):
+        if hasattr(child, "datasets"):
+            inmem += len(child.datasets)
+    return {"files": files, "registry": regd, "collections": sorted(b.registry.queryCollections()), "txn_depth": depth, "inmem": inmem}
 
 
 def diff(a, c):
     out = []
-    for k in ("files", "registry", "collections", "txn_depth"):
+    for k in ("files", "registry", "collections", "txn_depth", "inmem"):
         if a[k] != c[k]:
             if k == "files":
                 out.append(f"artifacts changed: +{sorted(set(c[k]) - set(a[k]))} -{sorted(set(a[k]) - set(c[k]))}"
                            + (" (content changed)" if any(a[k].get(f) != c[k].get(f) for f in set(a[k]) & set(c[k])) else ""))
             elif k == "txn_depth":
                 out.append(f"datastore transaction depth {a[k]} -> {c[k]}")
+            elif k == "inmem":
+                out.append(f"objects held by the in-memory datastore {a[k]} -> {c[k]}")
             else:
                 out.append(f"{k} changed")
     return out
@@ -490,8 +496,20 @@ def faults(ctx, tmp):
     for name in ("transfer_from", "write", "remove", "mkdir"):
         inj.wrap(FileResourcePath, name, InjectedFault)
 
-    def fresh(tag):
+    def fresh(tag, chained=False):
         root = os.path.join(tmp, tag)
+        if chained:
+            # in-memory datastore + two file datastores behind a ChainedDatastore
+            from lsst.daf.butler import Config
+
+            c = Config()
+            c["datastore", "cls"] = "lsst.daf.butler.datastores.chainedDatastore.ChainedDatastore"
+            c["datastore", "datastores"] = [
+                {"datastore": {"cls": "lsst.daf.butler.datastores.inMemoryDatastore.InMemoryDatastore"}},
+                {"datastore": {"cls": "lsst.daf.butler.datastores.fileDatastore.FileDatastore", "root": "<butlerRoot>/fs1", "records": {"table": "fs1_records"}}},
+                {"datastore": {"cls": "lsst.daf.butler.datastores.fileDatastore.FileDatastore", "root": "<butlerRoot>/fs2", "records": {"table": "fs2_records"}}},
+            ]
+            Butler.makeRepo(root, config=c)
         b = repo.make_butler(root, run="r1")
         repo.basic_dimensions(b, detectors=(1, 2, 3, 4))
         dt = DatasetType("dt", {"instrument", "detector"}, "StructuredDataDict", universe=b.dimensions)
@@ -535,7 +553,9 @@ def faults(ctx, tmp):
             b.transfer_from(aux["src"], aux["src_refs"], transfer="copy", register_dataset_types=False)
 
         additive = [("put", scenario_put), ("put-in-block", scenario_put_in_block), ("ingest-copy", scenario_ingest("copy")),
-                    ("ingest-move", scenario_ingest("move")), ("import", scenario_import), ("transfer_from", scenario_transfer)]
+                    ("ingest-move", scenario_ingest("move")), ("import", scenario_import), ("transfer_from", scenario_transfer),
+                    ("put@chained", scenario_put), ("put-in-block@chained", scenario_put_in_block), ("ingest-copy@chained", scenario_ingest("copy")),
+                    ("transfer_from@chained", scenario_transfer)]
         # a source repository for import / transfer
         sroot, sb, sdt = fresh("src")
         srefs = [sb.put({"s": i}, sdt, instrument="I", detector=i) for i in (2, 3)]
@@ -548,7 +568,7 @@ def faults(ctx, tmp):
             reached_effect = False
             while True:
                 tag = f"f_{name}_{k}"
-                root, b, dt = fresh(tag)
+                root, b, dt = fresh(tag, chained=name.endswith("@chained"))
                 from lsst.daf.butler import CollectionType
                 b.registry.registerCollection("tag", CollectionType.TAGGED)
                 existing = b.put({"keep": 1}, dt, instrument="I", detector=1)
@@ -576,6 +596,12 @@ def faults(ctx, tmp):
                     ctx.count(f"fault-swallowed:{name}")
                 else:
                     d = diff(before, after)
+                    if any(x.startswith("objects held by the in-memory") for x in d):
+                        # A failed chained put leaves the object with the in-memory child (ChainedDatastore registers its undo only
+                        # after every child succeeded).  Nothing a registry query or the datastore root shows changes, so this is
+                        # outside C07's statement: recorded as an observation.
+                        ctx.count("observation:in-memory-child-keeps-object-of-failed-chained-put")
+                        d = [x for x in d if not x.startswith("objects held by the in-memory")]
                     ctx.nontrivial.add((name, k))
                     if name == "ingest-move":
                         # a failed move-ingest must not lose the user's files either
